@@ -297,11 +297,44 @@ fn small(part: usize, parts: usize) -> impl Iterator<Item = Case> {
     v.into_iter().enumerate().filter(move |(i, _)| i % parts == part).map(|(_, c)| c)
 }
 
+/// images and windows large enough that row offsets pass 65535 / 65536 (16-bit arithmetic), raw 32 bpp
+fn large() -> Vec<Case> {
+    let mut v = Vec::new();
+    let mk = |ww: u16, wh: u16, l: u16, t: u16, r: u16, b: u16, iw: u16, ih: u16| {
+        let n = iw as usize * ih as usize;
+        let img: Vec<u8> = (0..n * 4).map(|i| (i as u32).wrapping_mul(2654435761).to_le_bytes()[3]).collect();
+        let mut wire = Vec::with_capacity(img.len());
+        for row in (0..ih as usize).rev() {
+            wire.extend_from_slice(&img[row * iw as usize * 4..(row + 1) * iw as usize * 4]);
+        }
+        Case { win_w: ww, win_h: wh, left: l, top: t, right: r, bottom: b, img_w: iw, img_h: ih, bpp: 32, compress: false, data: wire, image: Some(img), alt_image: None }
+    };
+    // matched rectangle and image, well inside the window
+    v.push(mk(300, 300, 5, 5, 284, 284, 280, 280));
+    v.push(mk(300, 300, 0, 0, 255, 256, 256, 257));
+    v.push(mk(260, 260, 2, 1, 257, 258, 256, 258));
+    v.push(mk(1024, 70, 0, 0, 1023, 69, 1024, 70));
+    v.push(mk(2000, 40, 7, 3, 1999, 36, 1993, 34));
+    // very wide image, narrow rectangle: the source offset of row 2 is already beyond 65535
+    v.push(mk(64, 8, 0, 0, 63, 3, 40000, 4));
+    v.push(mk(64, 8, 1, 1, 60, 5, 32768, 5));
+    v.push(mk(64, 8, 1, 1, 60, 5, 65535, 5));
+    // a window with more than 65536 pixels and rectangles at its far end
+    v.push(mk(400, 400, 390, 390, 399, 399, 10, 10));
+    v.push(mk(400, 400, 0, 163, 399, 164, 400, 2));
+    v.push(mk(65535, 2, 65000, 0, 65534, 1, 535, 2));
+    // the same geometries with an image one row / column short (must be an error or leave the window intact, never a panic)
+    v.push(mk(300, 300, 5, 5, 284, 284, 280, 279));
+    v.push(mk(300, 300, 5, 5, 284, 284, 279, 280));
+    v
+}
+
 pub fn check(rep: &Report) {
     rep.assume("exact copy is asserted only when the rectangle is inside the window and the decoded image is at least as large as the rectangle; Err is always acceptable");
     rep.assume("out-of-bounds reads and writes in front of the buffers are only observable in the AddressSanitizer build of this check (run by the same command when that binary is present)");
     rep.extra("address_sanitizer", serde_json::json!(cfg!(verif_asan)));
     rep.enumerate("small-exhaustive", true, small, run);
+    rep.list("large", large(), run);
     rep.random("geometry", rep.tier.n(600_000, 20_000_000), 120, decode, run);
     rep.require("geometry", "exact-copy-checked", 20_000);
     rep.require("geometry", "out-of-window", 5_000);
